@@ -1107,7 +1107,7 @@ def main(argv: list[str]) -> int:
     idx = 0
     for rec in recs + recsB:
         items2.append((idx, rec, pick_map(idx, rec), FORMATS[(idx + seed) % nfmt], seed * 1000003 + idx))
-        if thorough or idx % 4 == 0:      # a second pass: next option, another file format
+        if idx % (2 if thorough else 4) == 0:      # a second pass: next option, another file format
             items2.append((idx, rec, pick_map(idx + 1, rec), FORMATS[(idx + seed + 1 + idx // nfmt) % nfmt],
                            seed * 1000003 + idx + 500009))
         idx += 1
